@@ -69,7 +69,19 @@ func (r *Rounds) ChooseTxns(name string, ntx int) []Txn {
 		}
 		t := Txn{}
 		for j := 0; j < nops; j++ {
-			o := Op{Kind: vp.Choose(name+".op", kinds), Path: GenPath(name+".p", r.Alpha, r.Lmax)}
+			kind := 0
+			if pat := vp.Param("lasttxpattern", 0); pat > 0 && i == ntx-1 {
+				// the kinds of the last transaction's operations are fixed by the decimal digits of
+				// the pattern, most significant first (1 = insert, 2 = delete): 211 = delete, insert, insert
+				d := pat
+				for q := nops - 1; q > j; q-- {
+					d /= 10
+				}
+				kind = d%10 - 1
+			} else {
+				kind = vp.Choose(name+".op", kinds)
+			}
+			o := Op{Kind: kind, Path: GenPath(name+".p", r.Alpha, r.Lmax)}
 			if o.Kind == 0 {
 				o.Value = GenValue(name+".v", 1)
 			}
